@@ -152,44 +152,46 @@ def rule_seq(repo: Repo, rep: Report) -> int:
 # STAGE-LIST
 # ---------------------------------------------------------------------------
 
-def rule_stage_lists(repo: Repo, rep: Report) -> int:
+def rule_stage_lists(repo: Repo, rep: Report, only=None, rule: str = "STAGE-LIST") -> int:
     n = 0
     for file, cname, want in ((DJ, "DeepJSCCModel", ["encoder", "constraint", "channel", "decoder"]), (CC, "ChannelCodeModel", ["encoder", "modulator", "constraint", "channel", "demodulator", "decoder"])):
+        if only is not None and cname not in only:
+            continue
         ci = repo.cls(file, cname)
         init = repo.method(ci, "__init__")
         if not ci.is_subclass_of("SequentialModel"):
-            rep.violation("STAGE-LIST", init, f"{cname} bases: {ci.base_names}", "the model no longer inherits the sequential forward()")
+            rep.violation(rule, init, f"{cname} bases: {ci.base_names}", "the model no longer inherits the sequential forward()")
             continue
         if "forward" in ci.methods:
-            rep.undecided("STAGE-LIST", ci.methods["forward"], f"{cname}.forward overrides the sequential loop", "an overriding forward is not analysed by this rule")
+            rep.undecided(rule, ci.methods["forward"], f"{cname}.forward overrides the sequential loop", "an overriding forward is not analysed by this rule")
             continue
         from ..astutil import Inliner
 
         inl = Inliner(init)
         sup = [c for c in ast.walk(init.node) if isinstance(c, ast.Call) and match(c.func, "super().__init__") is not None]
         if len(sup) != 1 or not sup[0].args:
-            rep.undecided("STAGE-LIST", init, f"{cname}: super().__init__ call", "not found or without positional stage list")
+            rep.undecided(rule, init, f"{cname}: super().__init__ call", "not found or without positional stage list")
             continue
         lst = inl.inline(sup[0].args[0])
         if not isinstance(lst, (ast.List, ast.Tuple)):
-            rep.undecided("STAGE-LIST", init, f"{cname}: stage list {unparse(lst)}", "not a list display")
+            rep.undecided(rule, init, f"{cname}: stage list {unparse(lst)}", "not a list display")
             continue
         got = [e.id if isinstance(e, ast.Name) else unparse(e) for e in lst.elts]
         params = set(init.params)
         n += 1
         if got == want and all(g in params for g in got):
-            rep.ok("STAGE-LIST", init, f"{cname} stages = [{', '.join(got)}]", "declared order, by parameter identity", node=sup[0])
+            rep.ok(rule, init, f"{cname} stages = [{', '.join(got)}]", "declared order, by parameter identity", node=sup[0])
         else:
-            rep.violation("STAGE-LIST", init, f"{cname} stages = [{', '.join(got)}]", f"the declared pipeline is [{', '.join(want)}]", node=sup[0])
+            rep.violation(rule, init, f"{cname} stages = [{', '.join(got)}]", f"the declared pipeline is [{', '.join(want)}]", node=sup[0])
         # the mutable list must not be reassigned afterwards
         later = [s for s in stmts_of(init.body) if isinstance(s, (ast.Assign, ast.AugAssign)) and any(attr_chain(t) == "self.steps" for t in (s.targets if isinstance(s, ast.Assign) else [s.target]))]
         for s in later:
-            rep.violation("STAGE-LIST", init, s, "the stage list handed to the sequential base class is overwritten", node=s)
+            rep.violation(rule, init, s, "the stage list handed to the sequential base class is overwritten", node=s)
         # attributes published under the stage names must be the same objects
         for nm in want:
             a = [s for s in stmts_of(init.body) if isinstance(s, ast.Assign) and any(attr_chain(t) == f"self.{nm}" for t in s.targets)]
             for s in a:
-                rep.check(isinstance(s.value, ast.Name) and s.value.id == nm, "STAGE-LIST", init, s, "published attribute is the stage itself", f"self.{nm} is not the `{nm}` stage that runs in the pipeline", node=s)
+                rep.check(isinstance(s.value, ast.Name) and s.value.id == nm, rule, init, s, "published attribute is the stage itself", f"self.{nm} is not the `{nm}` stage that runs in the pipeline", node=s)
     return n
 
 
